@@ -232,6 +232,86 @@ def nested_apply_class(ctx, fref, call):
     return None
 
 
+def canon(expr, func, depth=0):
+    """Text of an expression with single-assignment locals replaced by
+    their definition (so `inner_loop` and `node.loop_body.children[0]`
+    compare equal)."""
+    if expr is None:
+        return "None"
+    if depth > 4:
+        return ast.unparse(expr)
+
+    class Sub(ast.NodeTransformer):
+        def visit_Name(self, node):
+            defs = [s for s in ast.walk(func) if isinstance(s, ast.Assign)
+                    and len(s.targets) == 1 and
+                    isinstance(s.targets[0], ast.Name) and
+                    s.targets[0].id == node.id]
+            params = {a.arg for a in func.args.args}
+            if len(defs) == 1 and node.id not in params and not isinstance(
+                    defs[0].value, (ast.Call,)) :
+                return ast.parse(canon(defs[0].value, func, depth + 1),
+                                 mode="eval").body
+            return node
+    import copy
+    return ast.unparse(Sub().visit(copy.deepcopy(expr)))
+
+
+def call_signature(call, func):
+    """(canonical target, canonical options) of X.apply / X.validate"""
+    target = call.args[0] if call.args else None
+    opts = call.args[1] if len(call.args) > 1 else None
+    for kword in call.keywords:
+        if kword.arg == "options":
+            opts = kword.value
+        if kword.arg == "node":
+            target = kword.value
+    return canon(target, func), canon(opts, func)
+
+
+def simple_target(txt):
+    """param-rooted navigation only (no calls)"""
+    return "(" not in txt
+
+
+def validate_signatures(ctx, fref, clsname, depth=0):
+    """Signatures of the <clsname>.validate calls reachable from `fref`
+    (through helpers called on self)."""
+    out = []
+    if depth > 3 or fref is None:
+        return out
+    for call in [c for c in ast.walk(fref.node) if isinstance(c, ast.Call)]:
+        if isinstance(call.func, ast.Attribute) and \
+                call.func.attr == "validate" and \
+                nested_apply_class(ctx, fref, call) == clsname:
+            out.append(call_signature(call, fref.node))
+        if isinstance(call.func, ast.Attribute) and \
+                isinstance(call.func.value, ast.Name) and \
+                call.func.value.id == "self" and \
+                call.func.attr != "validate":
+            targets, _ = ctx.eff.resolve(fref, call)
+            for tgt in targets[:1]:
+                out += validate_signatures(ctx, tgt, clsname, depth + 1)
+    return out
+
+
+def prevalidated(ctx, vref, fref, nested_call, kname):
+    """Is the nested `X.apply(T, O)` matched by an `X.validate(T, O)` in
+    the outer validate?  Options must agree; targets must agree when both
+    are plain navigations from the parameters."""
+    want_t, want_o = call_signature(nested_call, fref.node)
+    sigs = validate_signatures(ctx, vref, kname)
+    for got_t, got_o in sigs:
+        if got_o != want_o and not (want_o in ("None", "options") and
+                                    got_o in ("None", "options")):
+            continue
+        if simple_target(want_t) and simple_target(got_t) and \
+                want_t != got_t:
+            continue
+        return True
+    return False
+
+
 def validates_class(ctx, fref, clsname, depth=0):
     """Does `fref` (with self-callees) call <clsname>.validate?"""
     if depth > 3 or fref is None:
@@ -274,6 +354,7 @@ def analyse_apply(ctx, run, cls, func, discharges):
     run.count("commit-point candidates", len(muts))
     nviol = 0
     reported = set()
+    pending = {}
     vres = idx.find_method(cls, "validate")
     vref = FuncRef(vres[0].module, vres[0], vres[1]) if vres else None
     for cid, mlist in muts.items():
@@ -309,7 +390,8 @@ def analyse_apply(ctx, run, cls, func, discharges):
                             "transformation is applied to a node this "
                             "apply() has just constructed to satisfy it"})
                     continue
-                if kname and (validates_class(ctx, vref, kname) or
+                if kname and (prevalidated(ctx, vref, fref, nested[0],
+                                           kname) or
                               validates_class_before(ctx, fref, cfg, cnode,
                                                      kname)):
                     run.ob("C26.R3", True,
@@ -328,25 +410,31 @@ def analyse_apply(ctx, run, cls, func, discharges):
                         "point and only fresh symbols were declared in "
                         "between"})
                 continue
-            detail = norm(rnode.ast)
-            if detail in reported:
-                continue
-            reported.add(detail)
-            dkey = f"{cons}|{detail}"
-            if dkey in discharges:
-                run.ob(rule, True, {"rule": rule, "apply": cons,
-                                    "instance": detail,
-                                    "discharged": discharges[dkey]})
-                continue
-            nviol += 1
-            run.check(
-                rule, False, cons, detail,
-                f"after '{mlist[0][1][:70]}' changed the caller's code "
-                f"({mlist[0][0]}), '{norm(rnode.ast)[:70]}' can still "
-                f"refuse: {why}. The rejected transformation leaves the "
-                f"PSyIR modified.", loc(mod, rnode.ast),
-                path=f"{cons}: commit {loc(mod, cnode.ast)} -> refusal "
-                     f"{loc(mod, rnode.ast)}")
+            pending.setdefault(rid, []).append((cnode, mlist, rule, why))
+    for rid, items in pending.items():
+        rnode = cfg.nodes[rid]
+        refusing = norm(rnode.ast)
+        dkey = f"{cons}|{refusing}"
+        rule = items[0][2]
+        if dkey in discharges:
+            run.ob(rule, True, {"rule": rule, "apply": cons,
+                                "instance": refusing,
+                                "discharged": discharges[dkey]})
+            continue
+        commits = sorted({norm(c.ast) for c, _m, _r, _w in items})
+        detail = f"{refusing} <= after: " + " ;; ".join(commits)
+        nviol += 1
+        first = min(items, key=lambda it: it[0].lineno)
+        cnode, mlist, _r, why = first
+        run.check(
+            rule, False, cons, detail,
+            f"after '{mlist[0][1][:70]}' changed the caller's code "
+            f"({mlist[0][0]}; {len(commits)} mutating statement(s) reach "
+            f"this point), '{refusing[:70]}' can still refuse: {why}. The "
+            f"rejected transformation leaves the PSyIR modified.",
+            loc(mod, rnode.ast),
+            path=f"{cons}: commit {loc(mod, cnode.ast)} -> refusal "
+                 f"{loc(mod, rnode.ast)}")
     if nviol == 0:
         run.ob("C26.R2", True, {"rule": "C26.R2", "apply": cons,
                                 "mutating_stmts": len(muts),
